@@ -2,6 +2,7 @@
 //! ant-networking, stepped by the harness through the `verif-hooks` feature.
 mod c01;
 mod c02;
+mod c05;
 mod c08;
 mod c10;
 mod sim;
@@ -11,6 +12,7 @@ fn main() {
     match cfg.prop.as_str() {
         "C01" => c01::run(cfg),
         "C02" => c02::run(cfg),
+        "C05" => c05::run(cfg),
         "C08" => c08::run(cfg),
         "C10" => c10::run(cfg),
         other => {
